@@ -1200,6 +1200,8 @@ func checkN13(c *Ctx, pr *prioRoles, rule string) {
 					evs = append(evs, ev{call, "division"})
 				case wrapper[cal]:
 					evs = append(evs, ev{call, "division"})
+				case p.IsProduct(cal) && (p.mayWriteField(cal, "useful") || p.mayWriteField(cal, "uncrowded")) && !p.Reach(cal)[pr.safeDivideFn]:
+					evs = append(evs, ev{call, "filter"})
 				case p.IsProduct(cal) && (p.Reach(cal)[pr.sendFn] || p.Reach(cal)[pr.safeDivideFn]):
 					evs = append(evs, ev{call, "other"})
 				}
@@ -1228,7 +1230,13 @@ func checkN13(c *Ctx, pr *prioRoles, rule string) {
 			}
 			evs := events(fn)
 			for _, d := range evs {
-				if d.kind == "division" && nearest(evs, d) == nil {
+				var evsNF []ev
+				for _, e := range evs {
+					if e.kind != "filter" {
+						evsNF = append(evsNF, e)
+					}
+				}
+				if d.kind == "division" && nearest(evsNF, d) == nil {
 					called := false
 					for _, sa := range p.CallSitesX(fn) {
 						if inRt[sa.Call.Parent()] {
@@ -1243,7 +1251,7 @@ func checkN13(c *Ctx, pr *prioRoles, rule string) {
 			}
 		}
 	}
-	n := 0
+	n, nfc := 0, 0
 	for _, fn := range pr.rt.Funcs {
 		if fn == pr.safeDivideFn {
 			continue
@@ -1253,7 +1261,29 @@ func checkN13(c *Ctx, pr *prioRoles, rule string) {
 			if d.kind != "division" {
 				continue
 			}
-			last := nearest(evs, d)
+			var evsNoFilter []ev
+			for _, e := range evs {
+				if e.kind != "filter" {
+					evsNoFilter = append(evsNoFilter, e)
+				}
+			}
+			last := nearest(evsNoFilter, d)
+			// the candidate list of the division was rebuilt for it: among the divisions and list
+			// rebuilds before it, the nearest is a rebuild (a second division over the list of the
+			// first one hands the remainder to the wrong candidates)
+			if cal := p.Callee(d.in); cal != nil && isCheckedDivision(cal) && len(d.in.Call.Args) == 4 {
+				if _, path, okp := p.Sym(d.in.Call.Args[1]).FieldPath(); okp && (path[len(path)-1] == "useful" || path[len(path)-1] == "uncrowded") {
+					var evsDF []ev
+					for _, e := range evs {
+						if e.kind == "filter" || e.kind == "division" {
+							evsDF = append(evsDF, e)
+						}
+					}
+					lf := nearest(evsDF, d)
+					c.R.Check(lf != nil && lf.kind == "filter", rule, fmt.Sprintf("%s#fresh-candidates.%d", p.FnKey(fn), func() int { nfc++; return nfc }()), p.InstrPos(d.in), "candidate list rebuilt before the division",
+						"the division at "+p.InstrPos(d.in)+" is made among "+p.Sym(d.in.Call.Args[1]).String()+" as an earlier step left it (the list is not rebuilt between the previous division, or the start of the function, and this one): the handlers go to the wrong candidates")
+				}
+			}
 			if last == nil && wrapper[fn] {
 				continue // judged at the call sites of fn
 			}
@@ -1463,6 +1493,30 @@ func checkN78(c *Ctx, pr *prioRoles) {
 				ok7, why = false, fmt.Sprintf("%d true / %d false results", trues, falses)
 			}
 			c.R.Check(ok7, "N7", p.FnKey(cal), p.Pos(cal.Pos()), "for-all listed priorities: tactic != 0", "the allotment-filled predicate is not 'every listed priority has a non-zero allotment' ("+why+"): the scheduler proceeds with a starved priority, or waits for a release although every candidate can be served")
+		}
+	}
+	// N8: a function that empties a candidate list also refills it (a list that is emptied and left
+	// empty gives the second phase nobody to hand the unspent handlers to)
+	for _, field := range []string{"useful", "uncrowded"} {
+		for _, fn := range pr.rt.Funcs {
+			var trunc ssa.Instruction
+			refills := false
+			for _, b := range fn.Blocks {
+				for _, in := range b.Instrs {
+					st, ok := fieldStore(in, field)
+					if !ok {
+						continue
+					}
+					if sl, isSl := st.Val.(*ssa.Slice); isSl && sl.Low == nil {
+						trunc = in
+					} else {
+						refills = true
+					}
+				}
+			}
+			if trunc != nil {
+				c.R.Check(refills, "N8", p.FnKey(fn)+"#"+field+"-refilled", p.InstrPos(trunc), "emptied and rebuilt", "the "+field+" list is emptied and never refilled: no priority is a candidate any more, the unspent handlers are handed to nobody")
+			}
 		}
 	}
 	// N8: appends to `useful`
